@@ -187,6 +187,91 @@ pub fn check_row(row: &Row, l: &mut Local) -> Check {
     Ok(())
 }
 
+/// what my own strict reading says about an arbitrary line
+pub enum RefLine {
+    WellFormed { start: u32, end: Option<u32>, p1: u8, p2: Option<u8>, desc: String },
+    Malformed,
+    Unspecified,
+}
+
+pub fn ref_line(line: &str) -> RefLine {
+    let Some(c1) = line.find(',') else { return RefLine::Malformed };
+    let rest = &line[c1 + 1..];
+    let Some(c2) = rest.find(',') else { return RefLine::Malformed };
+    let (cps, props, desc) = (&line[..c1], &rest[..c2], &rest[c2 + 1..]);
+    let hexok = |s: &str| (4..=6).contains(&s.len()) && s.bytes().all(|b| b.is_ascii_digit() || (b'A'..=b'F').contains(&b));
+    let mut unspecified = false;
+    let mut cp_val: Option<(u32, Option<u32>)> = None;
+    if cps.is_empty() || cps.chars().any(|c| !(c.is_ascii_hexdigit() || c == '-' || c == '+')) {
+        return RefLine::Malformed;
+    }
+    if hexok(cps) {
+        let v = u32::from_str_radix(cps, 16).unwrap();
+        if v > 0x10ffff {
+            return RefLine::Malformed;
+        }
+        cp_val = Some((v, None));
+    } else if let Some((a, b)) = cps.split_once('-') {
+        if hexok(a) && hexok(b) {
+            let (x, y) = (u32::from_str_radix(a, 16).unwrap(), u32::from_str_radix(b, 16).unwrap());
+            if x > 0x10ffff || y > 0x10ffff {
+                return RefLine::Malformed;
+            }
+            if x <= y {
+                cp_val = Some((x, Some(y)));
+            } else {
+                unspecified = true;
+            }
+        } else {
+            unspecified = true;
+        }
+    } else {
+        unspecified = true;
+    }
+    let name = |s: &str| PROP_NAMES.iter().position(|n| *n == s).map(|i| i as u8);
+    let mut pv: Option<(u8, Option<u8>)> = None;
+    if let Some(i) = name(props) {
+        pv = Some((i, None));
+    } else {
+        let toks: Vec<&str> = props.split(' ').filter(|t| !t.is_empty()).collect();
+        let only_spaces_and_words = props.chars().all(|c| c == ' ' || c == '_' || c.is_ascii_alphabetic());
+        if toks.len() == 3 && toks[1] == "or" && only_spaces_and_words && !props.starts_with(' ') && !props.ends_with(' ') {
+            match (name(toks[0]), name(toks[2])) {
+                (Some(a), Some(b)) => pv = Some((a, Some(b))),
+                _ => return RefLine::Malformed,
+            }
+        } else if !props.is_empty() && props.chars().all(|c| c == '_' || c.is_ascii_uppercase()) {
+            return RefLine::Malformed; // a single unknown word
+        } else if props.is_empty() {
+            return RefLine::Malformed;
+        } else {
+            unspecified = true;
+        }
+    }
+    match (unspecified, cp_val, pv) {
+        (false, Some((start, end)), Some((p1, p2))) => RefLine::WellFormed { start, end, p1, p2, desc: desc.to_string() },
+        _ => RefLine::Unspecified,
+    }
+}
+
+/// arbitrary text through PrecisDerivedProperty::from_str against my strict reading (fuzz target `csv`)
+pub fn check_line_text(line: &str, l: &mut Local) -> Check {
+    l.eval();
+    let case = || json!({"op": "line_text", "line": jstr(line)});
+    let got = guard(|| PrecisDerivedProperty::from_str(line)).map_err(|p| Violation::new(case(), "no panic", format!("panic: {p}")))?;
+    match ref_line(line) {
+        RefLine::Unspecified => Ok(()),
+        RefLine::Malformed => match got {
+            Err(_) => Ok(()),
+            Ok(p) => Err(Violation::new(case(), "Err(_) for a malformed row", format!("Ok({p:?})"))),
+        },
+        RefLine::WellFormed { start, end, p1, p2, desc } => {
+            let row = Row { start, end, width: 4, p1, p2: p2.map(|q| (q, 1, 1)), desc, mal: Mal::None };
+            compare(&row, &got, "").map_err(|(e, o)| Violation::new(case(), e, o))
+        }
+    }
+}
+
 pub fn check_name(text: &str, l: &mut Local) -> Check {
     l.eval();
     let r = guard(|| DerivedProperty::from_str(text)).map_err(|p| Violation::new(json!({"op": "property_name", "text": text}), "no panic", format!("panic: {p}")))?;
@@ -394,6 +479,7 @@ pub fn replay(_run: &Run, case: &Value) -> Check {
             r
         }
         Some("iana_file") => Ok(()),
+        Some("line_text") => check_line_text(&jget_str(case, "line").unwrap(), &mut l),
         _ => panic!("unknown C17 case"),
     }
 }
